@@ -28,6 +28,7 @@ def mode_flags(mode):
     base = ['-std=c++11', '-w', GUARD]
     if mode == 'sym': return base + ['-O0', '-DNDEBUG', '-DHSCALAR_SYM']
     if mode == 'symdbg': return base + ['-O0', '-DHSCALAR_SYM']
+    if mode == 'symasan': return base + ['-O0', '-g', '-DNDEBUG', '-DHSCALAR_SYM', '-fsanitize=address', '-fno-omit-frame-pointer']
     if mode == 'symf': return base + ['-O0', '-DNDEBUG', '-DHSCALAR_SYM', '-DSYM_FLOAT_PROFILE']
     if mode == 'double': return base + ['-O1', '-DNDEBUG', '-DHSCALAR_DOUBLE']
     if mode == 'doubledbg': return base + ['-O1', '-DHSCALAR_DOUBLE']
